@@ -1036,6 +1036,10 @@ class Interp:
             owner, found = cls.find_method(name)
             if isinstance(found, list):
                 fn = found[-1]
+                for cand in found:      # a property: the getter is the definition decorated with @property
+                    cd = [ast.unparse(d) for d in cand.decorator_list]
+                    if any(d in ("property", "cached_property") or d.endswith(".cached_property") for d in cd):
+                        fn = cand
                 decs = [ast.unparse(d) for d in fn.decorator_list]
                 f = VFunc(fn, owner.module, None, f"{owner.name}.{fn.name}", owner)
                 if any(d in ("property", "cached_property") or d.endswith(".cached_property") for d in decs):
@@ -1151,7 +1155,7 @@ class Interp:
                 f = VFunc(found[-1], owner.module, None, f"{owner.name}.{name}", owner)
                 return self.call(f.bind(obj), args, kwargs, node)
             from . import lib
-            return self.call(lib.foreign_method(self, obj, owner, name, node), args, kwargs, node)
+            return self.call(lib.foreign_method(self, obj, owner if owner is not None else "object", name, node), args, kwargs, node)
         f = self.getattr(obj, name, node)
         return self.call(f, args, kwargs, node)
 
